@@ -167,9 +167,12 @@ func scenarioC06(r *Run) {
 			}
 			continue // the connection ended first: nothing to judge
 		}
-		if !ref.obj.HasErr || ref.obj.Code == -32601 || ref.obj.Code == -32600 || ref.obj.Code == -32700 {
-			// "a cancellation error": an error object, and not one that says
-			// something else (which code says "cancelled" the property leaves open)
+		says := map[int]bool{-32700: true, -32600: true, -32601: true, -32602: true, -32603: true, -32098: true, 0: true}
+		if !ref.obj.HasErr || says[ref.obj.Code] {
+			// "a cancellation error": an error object whose code does not say
+			// something else - parse error, invalid request, method not found,
+			// invalid params, internal error, the catch-all system error (which
+			// code does say "cancelled" the property leaves open)
 			r.Fail("cancelled-waiter-wrong-reply", "call %s (id %s) was cancelled while waiting for a slot; want a cancellation error as reply, got %+v (found=%v)", m.Tag, m.ID, ref.obj, ok)
 			return
 		}
